@@ -21,11 +21,13 @@ fn run(cases: &str, out: &str, start: usize) {
     // be trusted by the scenarios nor ever be written to)
     std::env::set_var("SSL_CERT_FILE", format!("{}.ca.pem", out));
     std::env::set_var("VERIF_CA_FILE", format!("{}.ca.pem", out));
+    // every log statement of the library is evaluated (a statement that can panic or that costs time must show)
+    util::install_logger();
     let mut st = interp::State::new();
     // keep panic messages out of the way; the outcome class is what is recorded
     std::panic::set_hook(Box::new(|_| {}));
     let all: Vec<String> = std::io::BufReader::new(f).lines().map(|l| l.unwrap()).collect();
-    let is_net = |l: &str| l.starts_with("lsn ") || l.starts_with("tls ") || l.starts_with("tlsq ") || l.starts_with("ctcp ");
+    let is_net = |l: &str| l.starts_with("lsn ") || l.starts_with("tls ") || l.starts_with("tlsq ") || l.starts_with("tlsrude ") || l.starts_with("ctcp ");
     for (i, line) in all.iter().enumerate() {
         let line = line.clone();
         if i >= start && is_net(&line) {
@@ -104,6 +106,7 @@ fn main() {
             println!("{}", line);
         }
         "tlsq" => {
+            util::install_logger();
             net::tls_sequence_child(&args[2], &args[3], &diameter::dictionary::DEFAULT_DICT_XML);
         }
         "builtin-xml" => {
